@@ -1290,6 +1290,13 @@ def rope_slice(it, r, lo, hi, st):
                     s = out[-1]
                     ln = s.length()
                     if not isinstance(ln, int):
+                        if s.kind in ("area", "fill") and it.ctx.branch(ln >= need):
+                            if s.kind == "area":
+                                out[-1] = Seg("area", s.a, s.b - need, s.c, s.d)
+                            else:
+                                out[-1] = Seg("fill", s.a, s.b - need)
+                            need = 0
+                            break
                         raise Unsupported("negative slice into a symbolic-length segment")
                     if ln <= need:
                         out.pop()
